@@ -93,7 +93,7 @@ Definition bad_value (f : fspec) (s : list N) : bool :=
   not_number s &&
   match spec_assoc (List.map lower1 s) (f_names f) with Some _ => false | None => true end.
 
-Definition refused_item (f : fspec) (e : list N) : bool :=
+Definition refused_words (f : fspec) (e : list N) : bool :=
   match split_on 47 e with
   | [rg] =>
       match split_on 45 rg with
@@ -110,6 +110,34 @@ Definition refused_item (f : fspec) (e : list N) : bool :=
       end
   | _ => false
   end.
+
+(* Operands no reader of integers can accept: the EMPTY operand ("-5", "5-", "/15", "5/": a
+   number is missing before or after the separator) and decimal numerals that do not fit a
+   machine integer (2^63 and above: "9223372036854775808", "18446744073709551621") - out of
+   every field's range whatever they are reduced to. Such an operand is refused as the first
+   operand of the range part, as its second operand unless the first is '*' or '?' (the code
+   then ignores the rest of the range part - outside the documented grammar, no opinion), and
+   as the step. *)
+Definition huge (s : list N) : bool :=
+  nonempty s && forallb is_digit s &&
+  match digits_val 0 s with Some n => 2 ^ 63 <=? n | None => false end.
+Definition unparsable (s : list N) : bool := negb (nonempty s) || huge s.
+
+Definition refused_shape (e : list N) : bool :=
+  nonempty e &&      (* empty list items ("1,,2") are skipped by the code: no opinion *)
+  match split_on 47 e with
+  | rg :: rest =>
+      match split_on 45 rg with
+      | a :: more =>
+          unparsable a ||
+          (negb (is_star_or_q a) && match more with [b] => unparsable b | _ => false end) ||
+          match rest with [st] => unparsable st | _ => false end
+      | [] => false
+      end
+  | [] => false
+  end.
+
+Definition refused_item (f : fspec) (e : list N) : bool := refused_words f e || refused_shape e.
 
 Definition refused_field (f : fspec) (s : list N) : bool :=
   existsb (refused_item f) (split_on 44 s).
